@@ -122,6 +122,13 @@ func failKey(sd StepDesc) string {
 				return "crop:non-identity-indices"
 			}
 		}
+	case "slice":
+		if topo != modeling.TriangleTopology && d.Has(3, o.attrName()) {
+			return "slice:non-triangle-topology"
+		}
+		if topo == modeling.TriangleTopology && !d.Has(3, o.attrName()) && o.Variant != "t" && len(d.Idx) >= 3 {
+			return "slice:missing-attribute"
+		}
 	case "laplacian", "laplacian_axis":
 		if d.Has(3, o.attrName()) && o.Iter > 0 {
 			if topo == modeling.LineLoopTopology && len(d.Idx) == 0 {
@@ -555,6 +562,8 @@ func suitable(op string, d Desc) bool {
 		return m <= 10000 // the area test is only close to its threshold for small cross products, which are exact
 	case "rotate", "apply_trs", "repeat", "scale3", "scale2", "scale_along_normal":
 		return m <= 1000000
+	case "slice":
+		return m <= 100000 // plane distances stay far above float rounding
 	case "center":
 		for _, a := range d.Attrs {
 			if a.Arity == 3 {
@@ -619,6 +628,13 @@ func Chain(run *hx.Run, r *hx.Rng, kinds []string, maxDepth int) {
 		run.Count("op:" + o.Op)
 		if r.Chance(2, 3) {
 			d.Exp = hx.Pick(r, frameScales)
+		}
+		if !IsFrameOp(o.Op) { // an exact operation (scale along the normal): judged in Coq at scale 1
+			d.Exp = 0
+			c, _, class := OpCase(StepDesc{Ins: []Desc{d}, Op: o})
+			run.Count("class:" + class)
+			run.Add(c)
+			return
 		}
 		run.Count(fmt.Sprintf("frame-scale:2^%d", -d.Exp))
 		run.Add(FrameCase(StepDesc{Ins: []Desc{d}, Op: o}))
